@@ -230,6 +230,7 @@ def run(ctx) -> None:
         for n in raises:
             a = n.ast
             if a.exc is None:
+                okr = False  # a bare raise re-raises the handled object — possibly the internal carrier — without unwrapping
                 continue
             if not _derived_from(cfg, rd, n, a.exc, hname):
                 okr = False
@@ -439,6 +440,7 @@ VARIANTS = [
     Variant("map-item-swallow", TA, sub_once(r"(            except Exception as e:\n                # Catch validation errors.*?\n                # before run\(\)'s execution try block\n                return RunResult\(\n                    values=\{\},\n                    status=RunStatus\.)FAILED(,\n                    run_id=_generate_run_id\(\),\n                    error=e,)", r"\1COMPLETED\2"), {"C11.R1"}),
     Variant("template-no-unwrap", TS, replace_once("                error = e.__cause__ or e\n                partial_state = e.partial_state", "                partial_state = e.partial_state"), {"C11.R2"}),
     Variant("template-raise-with-context", TA, replace_once("                raise error from None", "                raise e"), {"C11.R2"}),
+    Variant("template-nested-reraises-carrier", TA, replace_once("            if error_handling == \"raise\":\n                raise error from None\n\n            partial_values = filter_outputs(partial_state, graph, select) if partial_state is not None else {}\n            return RunResult(\n                values=partial_values,\n                status=RunStatus.FAILED,", "            if error_handling == \"raise\":\n                if _parent_span_id is not None and isinstance(e, ExecutionError):\n                    raise\n                raise error from None\n\n            partial_values = filter_outputs(partial_state, graph, select) if partial_state is not None else {}\n            return RunResult(\n                values=partial_values,\n                status=RunStatus.FAILED,"), {"C11.R2"}),
     Variant("template-failed-values-empty", TS, replace_once("            partial_values = filter_outputs(partial_state, graph, select) if partial_state is not None else {}", "            partial_values = {}"), {"C11.R2"}),
     Variant("sync-update-in-finally", SS, sub_once(r"                # Re-raise other BaseExceptions \(KeyboardInterrupt, SystemExit, etc\.\)\n                raise\n", "                # Re-raise other BaseExceptions (KeyboardInterrupt, SystemExit, etc.)\n                if not isinstance(e, KeyboardInterrupt):\n                    outputs = {}\n                else:\n                    raise\n"), {"C11.R3", "C11.R1"}),
     Variant("async-apply-failed", AS, replace_once("        if isinstance(result, BaseException):\n            if first_error is None:\n                first_error = result\n            continue\n", "        if isinstance(result, BaseException):\n            if first_error is None:\n                first_error = result\n            if not isinstance(result, ExecutionError):\n                continue\n            result = (ready_nodes[0], {}, {}, {})\n"), {"C11.R3"}),
